@@ -908,8 +908,21 @@ pub fn run(ctx: &Ctx, report: &mut Report) {
     // each shard starts its own providers (thread-local) and shuts them down when it ends
     run_prop(ctx, report, PropSpec { name: "io-providers", cases, max_shrink_iters: 120 }, case_strategy, oracle);
     stop_all_providers();
+    // back-pressure: hundreds of pipelined requests with large responses, client not reading
+    // for a while (see c30bp.rs); a handful of fixed-size cases per provider
+    let sub = Ctx { id: ctx.id.clone(), tier: ctx.tier, seed: ctx.seed, shards: 2 };
+    run_prop(
+        &sub,
+        report,
+        PropSpec { name: "io-backpressure", cases: ctx.tier.pick(6, 60), max_shrink_iters: 6 },
+        || (any::<bool>(), prop_oneof![Just(120u16), Just(250), Just(400)], 6u8..=9, prop_oneof![Just(100u16), Just(400), Just(900)]).prop_map(|(tokio, requests, records, stall_ms)| super::c30bp::BpCase { tokio, requests, records, stall_ms }),
+        super::c30bp::oracle,
+    );
 }
 
-pub fn replay(_check: &str, case: &serde_json::Value) -> Verdict {
+pub fn replay(check: &str, case: &serde_json::Value) -> Verdict {
+    if check == "io-backpressure" {
+        return replay_case::<super::c30bp::BpCase, _>(case, super::c30bp::oracle);
+    }
     replay_case::<Case, _>(case, oracle)
 }
